@@ -15,7 +15,7 @@ impl Prop for C13Prop {
         "C13"
     }
     fn rule(&self) -> &'static str {
-        "three streams. (1) programs over scripted commands (straight-line, goto-label and goto-line loops incl. loops that never end by themselves, handled errors with on_error) in which the k-th command invocation raises the embedder's halt flag, for k drawn over every boundary of the run; the run must return Ok with exactly the invocations up to and including the k-th in the log and the variables as they were then. Observed: call log, final variables, Ok/Err. (2) c13s: structured SDK programs of C05's generator (if/elseif/else, while, for-in, functions, functions in condition position = nested evaluator) in which one `emit` is `emit __halt__`, which raises the flag from inside; compared with the halt-aware model (Sdk/FlowHalt.lean); relation: the run returns Ok and nothing is emitted after it. (3) c13t: loop shapes that never end by themselves (goto, while over a value, while over a command condition, nested for-in over ranges, a goto-only loop, an empty while inside a function in condition position, a looping test run by `test_file` as a sub-run, also with exit_on_error on; and — in a child process with capped memory — loops of the nested evaluator made of jumps only: two functions calling each other for ever under if / not / while, scoped or not) with a SECOND THREAD raising the flag after 0-3000 us; relation: returns Ok within the time limit and at most one `tick` observed the flag set. Non-trivial = the flag is raised and at least one instruction would have followed; distinct = distinct request."
+        "three streams. (1) programs over scripted commands (straight-line, goto-label and goto-line loops incl. loops that never end by themselves, handled errors with on_error) in which the k-th command invocation raises the embedder's halt flag, for k drawn over every boundary of the run; the run must return Ok with exactly the invocations up to and including the k-th in the log and the variables as they were then. Observed: call log, final variables, Ok/Err. (2) c13s: structured SDK programs of C05's generator (if/elseif/else, while, for-in, functions, functions in condition position = nested evaluator) in which one `emit` is `emit __halt__`, which raises the flag from inside; compared with the halt-aware model (Sdk/FlowHalt.lean); relation: the run returns Ok and nothing is emitted after it. (3) c13t: loop shapes that never end by themselves (goto, while over a value, while over a command condition, nested for-in over ranges, a goto-only loop, an empty while inside a function in condition position, a looping test run by `test_file` as a sub-run, also with exit_on_error on, a function that loops used as the condition of if / while / not while errors are fatal; and — in a child process with capped memory — loops of the nested evaluator made of jumps only: two functions calling each other for ever under if / not / while, scoped or not) with a SECOND THREAD raising the flag after 0-3000 us; relation: returns Ok within the time limit and at most one `tick` observed the flag set. Non-trivial = the flag is raised and at least one instruction would have followed; distinct = distinct request."
     }
     fn budget(&self, tier: Tier) -> usize {
         match tier {
@@ -33,7 +33,7 @@ impl Prop for C13Prop {
             if rng.chance(1, 5) {
                 return Case { req: format!("c13t {} {}", 100 + rng.below(CHILD_LOOPS.len()), 1 + rng.below(20)), in_domain: true, nontrivial: true, tags: vec!["second-thread", "child-process"] };
             }
-            let shape = rng.below(8);
+            let shape = rng.below(11);
             let delay_us = rng.below(3000);
             return Case { req: format!("c13t {} {}", shape, delay_us), in_domain: true, nontrivial: true, tags: vec!["second-thread"] };
         }
@@ -187,7 +187,7 @@ fn gen_structured_halt(rng: &mut Rng) -> Case {
 
 /// loops that never end by themselves: goto, while over a value, while over a command
 /// condition (nested evaluator), for-in over a large range with an inner if
-const LOOPS: [&str; 8] = [
+const LOOPS: [&str; 11] = [
     ":top\ntick\ngoto :top\n",
     "while true\n  tick\nend\n",
     "while not tick\n  x = set 1\nend\n",
@@ -200,6 +200,11 @@ const LOOPS: [&str; 8] = [
     // its own): `@TESTFILE` = a file whose test loops for ever; with exit_on_error on in the second
     "r = test_file @TESTFILE\n",
     "exit_on_error true\nr = test_file @TESTFILE test_spin\n",
+    // errors are FATAL while the flag comes up inside a function used as a condition: being
+    // halted is not an error, the run still returns Ok
+    "exit_on_error true\nfn spin\n  while true\n    tick\n  end\nend\nif spin\nend\n",
+    "exit_on_error true\nfn spin\n  while true\n    tick\n  end\nend\nwhile spin\nend\n",
+    "exit_on_error true\nfn spin\n  while true\n    tick\n  end\nend\nx = not spin\n",
 ];
 /// jump-only loops of the NESTED evaluator (labels are not available there; a function call and a
 /// function's `end` are jumps): two functions calling each other for ever.  Every round pushes a
